@@ -60,5 +60,6 @@ example : ReaderBuf.offers âŸ¨Generated.Reader.needGrow, fun _ cap _ => 2 * capâ
     control skeleton the model was written against (`Proofs/Skeletons.lean`, one `rfl` per function
     or clause; DESIGN.md Â§11.6a) -/
 theorem streams_skeletons : Skeletons.StreamsShape := Skeletons.streams_shape
+theorem f_logstream_reader_skeletons : Skeletons.F_logstream_readerShape := Skeletons.f_logstream_reader_shape
 
 end MtailVerif.C15
